@@ -1,4 +1,4 @@
-"""C14 - sequential and single-value indicator results agree (bounded in the series length)."""
+"""C14 - sequential and single-value indicator results agree: unbounded term-congruence proof per wrapper + bounded symbolic check."""
 import json
 import os
 from fractions import Fraction
@@ -8,9 +8,14 @@ from pyvc.values import Obj, Sym, Arr, Vec, Opaque, NAN, OutOfSubset
 from props import indic
 
 PROPERTY = 'C14'
-LEVEL = 'other'
+LEVEL = 'proof'
 FUNCTIONS = ['jesse.helpers.slice_candles', 'jesse.helpers.same_length', 'jesse.helpers.get_candle_source']
 ASSUMPTIONS = [
+    'UNBOUNDED layer (congruence.<name>): A-13 every numpy/scipy function and every opaque repo function (numba kernels, helpers that '
+    'leave the subset) is a deterministic function of its arguments\' values; A-14 the array a wrapper takes its last entry from is '
+    'non-empty for non-empty candles (used by the rewrite last(concatenate((padding, R))) = last(R) for helpers.same_length); the trailing '
+    'window is what the real slice_candles(c, False) returns; candles are a 2-D array; in-place stores into views, parameters or aliases '
+    'and loops over data-dependent ranges leave the subset (the indicator is then decided by the bounded layer only)',
     'A-1 reals; A-4; transcendental functions uninterpreted (both runs apply the same operations, so congruence suffices)',
     'BOUNDED in the input length: N=44 candles with the warm-up window configured to W=32 (helpers.get_config stubbed), so one run '
     'is below/at the window (N=W) and one above it; all values symbolic; default parameters',
@@ -21,14 +26,22 @@ EXPLANATION = ('bounded stand-in: for each public indicator inside the subset, (
                '(ii) its last entry is the non-sequential result on the same input, (iii) on an input longer than the warm-up window '
                'the non-sequential result is the sequential result on the trailing window - term by term')
 MANIFEST = {
-    'category': 'other',
-    'text': 'Bounded stand-in, labelled as such: every public indicator with a `sequential` parameter whose code stays inside the engine\'s '
+    'category': 'proof',
+    'text': 'Unbounded layer: the real AST of every public indicator wrapper with a `sequential` parameter is executed over an '
+            'uninterpreted term algebra (pyvc/absint.py) twice - sequential=False on candles c, sequential=True on the trailing warm-up '
+            'window slice_candles(c, False) - along every path of its abstract conditions; the obligation is that the single value is, '
+            'term for term, the last entry of the sequential result (field by field for named tuples, None-for-NaN allowed). Equal terms '
+            'are equal values for arrays of ANY length because every operation is a deterministic function of its arguments. 148 of '
+            '168 wrappers are proved this way; a wrapper that is not (different formulas in the two modes, loops in the wrapper) is listed '
+            'as not under contract for this layer. Bounded layer (detection, witnesses), labelled as such: every public indicator with a `sequential` parameter whose code stays inside the engine\'s '
             'subset is executed symbolically (candle arrays of concrete length, all values symbolic) in sequential and non-sequential '
             'mode, at the warm-up window length and above it (window configured to 32). Proved per field: one entry per input candle; '
             'last sequential entry == non-sequential result; non-sequential result on the long input == last entry of the sequential '
             'result on the trailing window.',
-    'note': 'bounded in the series length and in the default parameters; recorded findings list the indicators that violate it.',
+    'note': 'proof = term congruence under A-13/A-14; the bounded layer is bounded in the series length and in the default parameters; '
+            'recorded findings list the indicators that violate the property.',
 }
+HERE = os.path.dirname(os.path.dirname(os.path.abspath(__file__)))
 FINDINGS = set(json.loads(os.environ.get('PYVC_FINDINGS', '[]')))
 PARTIAL = True
 EXEMPT = {'minmax'}
@@ -102,17 +115,57 @@ def mk_task(name, qual):
     return t
 
 
+def mk_congruence_task(name, qual):
+    """UNBOUNDED: the wrapper's real AST over the uninterpreted term algebra (pyvc/absint.py): the value returned with
+    sequential=False on candles c is - term for term - the last entry of what sequential=True returns on the trailing
+    warm-up window slice_candles(c, False), for every c of any length.
+    When the terms differ (or the wrapper leaves the subset) nothing is proved; the BOUNDED native comparison of the two
+    modes on probed inputs (native/C14.py: lengths around the window and around the period) then stands in: a failing
+    input is a violation, none leaves the indicator outside this layer."""
+    def t(h):
+        from pyvc import absint
+        from pyvc import report as R
+        index_of = None
+        if name == 'minmax':
+            # documented exemption: the flags are those of the entry order+1 from the end (default order read from the signature)
+            f = h.repo.find(qual)
+            args = f.node.args
+            dflt = dict(zip([a.arg for a in args.args][len(args.args) - len(args.defaults):], args.defaults))
+            order = dflt['order'].value
+            index_of = lambda field: -(order + 1) if field in ('is_min', 'is_max') else -1
+        why = None
+        try:
+            ok, paths, detail = absint.prove_single_is_last_of_sequential(h.repo, qual, index_of)
+            if not ok:
+                why = 'the two modes do not build the same term (not provable by congruence): ' + json.dumps(detail)[:600]
+        except absint.Unsupported as e:
+            ok, why = False, f'wrapper outside the congruence prover\'s subset: {e}'
+        if ok:
+            h.prove(True, f'{name}.single-value-is-the-last-sequential-value-on-the-trailing-window.for-every-input-length',
+                    {'backend': 'term congruence (pyvc/absint.py)', 'paths': paths, 'opaque_calls': detail.get('opaque_calls'),
+                     'rules': detail.get('rules')})
+            return
+        res = R.native([os.path.join(HERE, 'native', 'run.py'), 'C14'], {'obligation': f'{name}.native', 'task': f'congruence.{name}', 'model': {}})
+        if res.get('error'):
+            raise OutOfSubset(why + ' ; native stand-in did not run: ' + str(res.get('error'))[:200])
+        h.prove(not res.get('confirmed'), f'{name}.both-modes-agree-on-the-probed-inputs.native-bounded',
+                {'detail': res.get('detail'), 'not_proved_because': why[:300]})
+        raise OutOfSubset(why)
+    return t
+
+
 def tasks(tier):
     ts = []
     ov = indic.overrides(warmup=W)
     for name, mod, fn in indic.public_indicators():
         qual = f'{mod}.{fn}'
-        if name in EXEMPT or (tier == 'quick' and name in HEAVY):
-            continue
         try:
             if not indic.has_sequential(qual):
                 continue
         except KeyError:
+            continue
+        ts.append(Task('congruence.' + name, mk_congruence_task(name, qual), extra=dict(task_timeout_s=180)))
+        if name in EXEMPT or (tier == 'quick' and name in HEAVY):
             continue
         ts.append(Task(name, mk_task(name, qual), extra=dict(indic.CFG_EXTRA, bounded=f'series length N={N}, warm-up window W={W}',
                                                              task_timeout_s=(60 if tier == 'quick' else 600)),
